@@ -90,10 +90,7 @@ def one_case(rng: Rng):
         rm_ = lm.run()
     ln = build("native")
     rn = ln.run()
-    # the native run names the source file by its sandbox path: the Metadata PDU is longer by that prefix
-    def canon(lines):
-        return [re.sub(r"(ret=\[md [^\]]*) len=\d+\]", r"\1]", x) for x in lines]
-    a, b = canon(lm.sess.out), canon(ln.sess.out)
+    a, b = lm.sess.out, ln.sess.out
     if lm.sess.ops != ln.sess.ops or a != b:
         i = next((j for j, (x, y) in enumerate(zip(a, b)) if x != y), min(len(a), len(b)))
         exc = ""
@@ -136,8 +133,7 @@ def replay(ctx: Ctx, path: str) -> int:
     with HostAudit(script_paths(c)) as audit:
         m = replay_session(obj, "mem")
     n = replay_session(obj, "native")
-    canon = lambda ls: [re.sub(r"(ret=\[md [^\]]*) len=\d+\]", r"\1]", x) for x in ls]  # noqa: E731
-    bad = canon(m.out) != canon(n.out) or bool(audit.hits)
+    bad = m.out != n.out or bool(audit.hits)
     m.close(); n.close()
     print("mem   :", m.out[-1][:300]); print("native:", n.out[-1][:300]); print("audit :", audit.hits[:4])
     if bad:
